@@ -49,11 +49,12 @@ def cases(tier):
                 acc.append(account(ti, r, prefix=pf))
     if tier == "quick":
         return [mk(a, b, 4) for (a, b) in PAIRS_Q] + acc
-    return [mk(a, b, 5, 6000, "cadical") for (a, b) in PAIRS_T[::3]] + [mk(a, b, 4, 3000) for (a, b) in PAIRS_T] + acc
+    # 5-byte data for reader pairs is not registered: unvalidated within the time available (each 4-byte pair takes 100-330 s)
+    return [mk(a, b, 4, 3000) for (a, b) in PAIRS_T] + acc
 
 
 META = dict(
-    bounds=dict(data_len="0..4 quick / 0..5 thorough", signatures="4 reader pairs quick / all 36 pairs of {Int32, Double, Bool, Choice, CopyText, Number} thorough, mandatory/optional symbolic"),
+    bounds=dict(data_len="0..4", signatures="4 reader pairs quick / all 36 pairs of {Int32, Double, Bool, Choice, CopyText, Number} thorough, mandatory/optional symbolic"),
     outside=["parameter lists longer than the bound, more than two readers, array readers", "the -200 case (a handler failing without an error "
              "of its own is a handler property; the -200 path is exercised in C06/C09 templates)",
              "SCPI_Input's return value (checked with the input-buffer harness under C08/C01: it returns what the last executed message returned, FALSE on overrun)"],
